@@ -36,6 +36,7 @@ ITEMS = [
     Item('DumperBase.process_resources', DM.sym_process_resources, [], DM.D + 'dumper_base.py::DumperBase.process_resources'),
     Item('DumperBase.row_counter', DM.sym_row_counter, [], DM.D + 'dumper_base.py::DumperBase.row_counter'),
     Item('FileDumper.rows_processor', DM.sym_rows_processor, [], DM.D + 'file_dumper.py::FileDumper.rows_processor'),
+    Item('FileDumper.dispatch', DM.sym_file_dumper_dispatch, [], DM.D + 'file_dumper.py::FileDumper.process_datapackage'),
     Item('iterable_storage.describe', BA.sym_iterable_storage, [], 'dataflows/helpers/iterable_loader.py::iterable_storage.describe'),
     Item('LazyIterator+get_iterator', BA.sym_get_iterator, [], BA.B + 'datastream_processor.py::DataStreamProcessor.get_iterator'),
     # building the chain runs nothing (a first-run checkpoint is the steps + stream + notify, whatever an earlier run left behind)
